@@ -100,11 +100,17 @@ func traceConc(o opts) error {
 			mux := http.NewServeMux()
 			ctx, cancel := context.WithCancel(context.Background())
 			defer cancel()
+			legacyCap := h%2 == 1
 			whois := func(cx context.Context, addr string) (*apitype.WhoIsResponse, error) {
 				if strings.HasPrefix(addr, "100.64.0.66") {
 					// the intruder: identified, but its only grant is on a name nobody uses
 					ws := &whoSpec{node: "intruder.ts.net", login: "intruder@example.com", cap1: "rules", cap2: "none",
 						rules1: acl.Rules{{Action: []acl.Action{acl.ActionGet, acl.ActionInfo, acl.ActionPut}, Secret: []acl.Secret{"zzz"}}}}
+					return ws.answer()
+				}
+				if legacyCap {
+					// the callers' grant sits under the legacy capability name only
+					ws := &whoSpec{node: "cli.ts.net", login: "cli@example.com", cap1: "none", cap2: "rules", rules2: superuser().Permissions}
 					return ws.answer()
 				}
 				return allAccessWhoIs(cx, addr)
